@@ -1377,7 +1377,7 @@ func isProtoInternalField(f *types.Var) bool {
 }
 
 func deepEqTerm(t types.Type, x, y value, depth int) *Term {
-	if depth > 64 {
+	if depth > 512 {
 		panic(pathEnd{peUnsupported, "deepEqTerm: recursion too deep (cyclic message?)"})
 	}
 	switch u := t.Underlying().(type) {
